@@ -311,7 +311,9 @@ End Fields.
 (** ** Static sizes needed by the reference decoder, computed from the declarations
     themselves (not from the analyzer's Schema). *)
 
-Fixpoint ref_static_bits (fuel : nat) (fl : file) (tid : string) : option N :=
+Fixpoint ref_static_bits_gen (fuel : nat) (fl : file) (nopayload : bool) (tid : string)
+  : option N :=
+  let ref_static_bits := fun fuel fl tid => ref_static_bits_gen fuel fl false tid in
   match fuel with
   | O => None
   | S fuel' =>
@@ -346,21 +348,21 @@ Fixpoint ref_static_bits (fuel : nat) (fl : file) (tid : string) : option N :=
       match lookup_decl fl tid with
       | Some (DEnum _ _ w) | Some (DCustomField _ (Some w) _) | Some (DChecksum _ _ w) => Some w
       | Some ((DStruct _ _ _ p | DPacket _ _ _ p) as d) =>
-          match sum d (decl_fields d), p with
+          (* a child replaces its parent's payload: every ancestor contributes its
+             fields minus the payload *)
+          let fs := if nopayload then filter (fun f => negb (is_payload f)) (decl_fields d)
+                    else decl_fields d in
+          match sum d fs, p with
           | Some own, None => Some own
-          | Some own, Some pid =>
-              (* a child replaces the parent's payload: parent fields minus payload *)
-              match lookup_decl fl pid with
-              | Some pd =>
-                  option_map (N.add own)
-                    (sum pd (filter (fun f => negb (is_payload f)) (decl_fields pd)))
-              | None => None
-              end
+          | Some own, Some pid => option_map (N.add own) (ref_static_bits_gen fuel' fl true pid)
           | None, _ => None
           end
       | _ => None
       end
   end.
+
+Definition ref_static_bits (fuel : nat) (fl : file) (tid : string) : option N :=
+  ref_static_bits_gen fuel fl false tid.
 
 Definition ref_static_octets (fl : file) (w : option N) (t : option string) : option N :=
   match w, t with
@@ -411,6 +413,12 @@ Definition rpayload_entry (d : decl) (st : rstate) : list (string * value) :=
   | _, _ => []
   end.
 
+(** Fields fixed by constraints are not part of a child's value. *)
+Definition drop_constrained (fl : file) (d : decl) (vals : list (string * value))
+  : list (string * value) :=
+  let cs := iter_constraints fl d in
+  filter (fun kv => match find_constraint cs (fst kv) with Some _ => false | None => true end) vals.
+
 (** Decode declaration [d]: a root directly, a child through its parent (the
     parent's fields, the constraints, then the child's fields inside the payload). *)
 Fixpoint ref_dec_decl (fuel : nat) (fl : file) (d : decl) (bs : list byte)
@@ -422,7 +430,7 @@ Fixpoint ref_dec_decl (fuel : nat) (fl : file) (d : decl) (bs : list byte)
         match lookup_decl fl tid with
         | Some ((DStruct _ _ _ _) as d') =>
             let+ (vals, _, rest) := ref_dec_decl fuel' fl d' sp in
-            ROk (VObj vals, rest)
+            ROk (VObj (drop_constrained fl d' vals), rest)
         | _ => RFault FUnsupported
         end in
       let run := fun (sp : list byte) =>
@@ -469,12 +477,6 @@ Fixpoint ref_dec_decl (fuel : nat) (fl : file) (d : decl) (bs : list byte)
           end
       end
   end.
-
-(** Fields fixed by constraints are not part of a child's value. *)
-Definition drop_constrained (fl : file) (d : decl) (vals : list (string * value))
-  : list (string * value) :=
-  let cs := iter_constraints fl d in
-  filter (fun kv => match find_constraint cs (fst kv) with Some _ => false | None => true end) vals.
 
 Definition ref_decode (fuel : nat) (fl : file) (id : string) (bs : list byte)
   : rres (value * list byte) :=
